@@ -96,6 +96,9 @@ Effect(c) ==
          [Same(Ok) EXCEPT !.objs = (c.a.o :> (IF DefaultUnit(ob.c) # NONE THEN [ob EXCEPT !.u = DefaultUnit(ob.c)] ELSE ob)) @@ objs]
     \* the client drops its last reference: the manager forgets the object (weak references)
     [] c.op = "DropObject" -> [Same(Ok) EXCEPT !.objs = [o \in DOMAIN objs \ {c.a.o} |-> objs[o]]]
+    \* the caller still holds the object of a system that was removed (or never added) and changes it: nothing of the manager's is touched,
+    \* no listener hears of it
+    [] c.op = "SetDefaultUnitRemoved" -> Same(Ok)
     [] c.op = "GetNewId" -> Same(Out("ok", NewId(1), Zero))
     [] c.op = "GetCategoryDefaultUnit" -> Same(Out("ok", DefaultUnit(c.a.c), Zero))
     [] c.op = "GetCurrentId" -> Same(Out("ok", current, Zero))
@@ -110,6 +113,7 @@ Enabled(c) ==
   CASE c.op \in {"SetDefaultUnit", "RemoveCategory"} -> c.a.id \in Reg        \* called on a registered system object
     [] c.op = "SetCurrent" -> c.a.id \in Reg \cup {NONE}                       \* selection selects registered systems or None
     [] c.op = "DropObject" -> c.a.o \in DOMAIN objs
+    [] c.op = "SetDefaultUnitRemoved" -> c.a.id \notin Reg
     [] OTHER -> TRUE
 Step(c) ==
   /\ Len(hist) < MaxCalls /\ c.op \in Ops /\ Enabled(c)
@@ -128,6 +132,7 @@ SetDefaultUnit   == \E id \in Ids, c \in Cats, u \in Units : Step(Call("SetDefau
 RemoveCategory   == \E id \in Ids, c \in Cats : Step(Call("RemoveCategory", [id |-> id, c |-> c]))
 Register         == \E o \in DOMAIN ObjPool : Step(Call("Register", [o |-> o]))
 DropObject       == \E o \in DOMAIN ObjPool : Step(Call("DropObject", [o |-> o]))
+SetDefaultUnitRemoved == \E id \in Ids, c \in Cats, u \in Units : Step(Call("SetDefaultUnitRemoved", [id |-> id, c |-> c, u |-> u]))
 GetNewId         == Step(Call("GetNewId", [x |-> 0]))
 QCats == Cats \cup {"depth"}       \* a category that is not the default category of its units
 GetCategoryDefaultUnit == \E c \in QCats : Step(Call("GetCategoryDefaultUnit", [c |-> c]))
@@ -140,7 +145,7 @@ ConvertScalarToCurrent == \E c \in QCats : \E u \in { v \in Units : TypeOf[v] = 
                        Step(Call("ConvertScalarToCurrent", [c |-> c, u |-> u, x |-> x]))
 Init == /\ TLCSet(2, 1 + (EmitOffset % 65520)) /\ order = <<>> /\ maps = EmptyM /\ current = NONE
         /\ template = [set |-> FALSE, m |-> EmptyM] /\ log = <<>> /\ hist = <<>> /\ objs = EmptyO
-Next == SetTemplate \/ AddUnitSystem \/ RemoveUnitSystem \/ SetCurrent \/ SetDefaultUnit \/ RemoveCategory \/ Register \/ DropObject
+Next == SetTemplate \/ AddUnitSystem \/ RemoveUnitSystem \/ SetCurrent \/ SetDefaultUnit \/ RemoveCategory \/ Register \/ DropObject \/ SetDefaultUnitRemoved
         \/ GetNewId \/ GetCategoryDefaultUnit \/ GetCurrentId \/ GetUnitSystemById \/ GetQuantityDefaultUnit
         \/ ConvertToCurrent \/ ConvertScalarToCurrent
 Spec == Init /\ [][Next]_vars
